@@ -1,7 +1,7 @@
 (* Props_C11.v — property C11: ONLY theorem statements, each closed by [exact] of a lemma of
    C11_Proofs*, followed by Print Assumptions.  [to_string_key] is utils.ToStringKey as it is on the
    tree; the functions named here are the ones C11_Check.check_case evaluates on every run. *)
-From Verif Require Import Base C11_Model C11_Proofs C11_Proofs2.
+From Verif Require Import Base C11_Model C11_Proofs C11_Proofs2 C11_Proofs3 C11_Proofs4 C11_Proofs5.
 Open Scope Z_scope.
 
 (* Preload, one hop, every relation kind that matches on key columns (has one, has many, belongs to,
@@ -14,6 +14,28 @@ Theorem c11_preload_partial : forall h ps cs,
   preload_hop to_string_key h ps cs = Some (norm_single (h_single h) (attach h ps cs)).
 Proof. exact (preload_hop_attach to_string_key). Qed.
 Print Assumptions c11_preload_partial.
+
+(* the exact sufficient condition for the hypothesis, on the current tree: no string part contains
+   '_' or is the text "nil", no by-value integer part is 0, and corresponding parts have the same
+   column type.  Each clause is necessary for the conclusion in general: c11_refuted_separator /
+   _nil / _zero drop exactly one of them. *)
+Theorem c11_key_faithful_when : forall ps cs,
+  (forall k, In k ps \/ In k cs -> clean_key k = true) ->
+  (forall k1 k2, In k1 ps -> In k2 ps \/ In k2 cs -> compat k1 k2) ->
+  keys_faithful to_string_key ps cs.
+Proof. exact faithful_when. Qed.
+Print Assumptions c11_key_faithful_when.
+
+(* many-to-many: the join-table hop attaches to each parent exactly the targets linked to it by a
+   join row whose columns equal the parent's and the target's keys as values, each once *)
+Theorem c11_m2m_partial : forall h ps js cs,
+  keys_faithful to_string_key ps (map fst js) ->
+  keys_faithful to_string_key (map snd js) (map c_key cs) ->
+  (forall j, In j js -> all_zero (snd j) = false) ->
+  join_rows_unique ps js cs ->
+  preload_m2m to_string_key h ps js cs = Some (attach_m2m h ps js cs).
+Proof. exact (preload_m2m_attach to_string_key). Qed.
+Print Assumptions c11_m2m_partial.
 
 (* nested path A.B: the rows fetched for A are exactly the rows owned by some parent, and hop B
    attaches to each of them exactly its own rows *)
@@ -41,7 +63,12 @@ Theorem c11_assoc_find_partial : forall h ps cs,
 Proof. exact (assoc_find_owned to_string_key). Qed.
 Print Assumptions c11_assoc_find_partial.
 
-(* association Joins: the ON clause compares values; (parents loaded from the table have keys) *)
+(* association Joins: the ON clause compares values in SQL (modelled as such: correspondence only);
+   it agrees with Preload's attachment whenever the parents have non-zero keys *)
+Theorem c11_joins_sql : forall h ps cs, joins_model h ps cs = attach_sql h ps cs.
+Proof. exact joins_model_sql. Qed.
+Print Assumptions c11_joins_sql.
+
 Theorem c11_joins : forall h ps cs,
   Forall (fun kp => all_zero kp = false) ps -> joins_model h ps cs = attach h ps cs.
 Proof. exact joins_model_attach. Qed.
@@ -78,3 +105,31 @@ Theorem c11_refuted_assoc_find :
   map c_uid (filter (owned hop_many sep_ps) sep_cs) = [201; 202].
 Proof. exact refuted_assoc_find. Qed.
 Print Assumptions c11_refuted_assoc_find.
+
+(* the proposed patch of utils.ToStringKey (escape '\' and '_' in string parts, print the string
+   "nil" as "\nil", print zero numbers as numbers): with it the statement is total - only schema
+   typing of corresponding key parts remains - and keys free of '\', '_', "nil" and by-value zeros
+   print exactly as before (utils_test.go's expectations "a", "1_2_3", "1_nil_3" are kept). *)
+Theorem c11_fixed_total : forall h ps cs,
+  (forall k1 k2, In k1 ps -> In k2 ps \/ In k2 (map c_key cs) -> compat k1 k2) ->
+  preload_hop to_string_key_fixed h ps cs = Some (norm_single (h_single h) (attach h ps cs)).
+Proof. exact preload_fixed_total. Qed.
+Print Assumptions c11_fixed_total.
+
+Theorem c11_fixed_unchanged : forall k,
+  forallb plain_part k = true -> to_string_key_fixed k = to_string_key k.
+Proof. exact fixed_unchanged. Qed.
+Print Assumptions c11_fixed_unchanged.
+
+(* non-vacuity *)
+Example c11_faithful_instance :
+  keys_faithful to_string_key
+    [[KStr "a"; KStr "b"]; [KStr "a"; KStr "c"]; [KStr "a"; KStr "b"]]
+    [[KPStr "a"; KPStr "b"]; [KNil; KPStr "c"]; [KPStr "x y"; KPStr "c"]].
+Proof. exact faithful_instance. Qed.
+
+Example c11_fixed_repairs_witnesses :
+  preload_hop to_string_key_fixed hop_many sep_ps sep_cs = Some (attach hop_many sep_ps sep_cs) /\
+  preload_hop to_string_key_fixed hop_one nil_ps nil_cs = Some (attach hop_one nil_ps nil_cs) /\
+  preload_hop to_string_key_fixed hop_many zero_ps zero_cs = Some (attach hop_many zero_ps zero_cs).
+Proof. repeat split; vm_compute; reflexivity. Qed.
